@@ -94,11 +94,18 @@ def tryRewrite {I O : Type} (b : RuleBeh I O) (s : Stash) (i : I) : Stash × Opt
 /-- The rule objects installed in the process (module-level singletons). -/
 structure World (I O : Type) where
   rules : List (RuleSpec × RuleBeh I O)
+  /-- which Python object carries the stash of rule `r`.  Usually one object per rule, but
+  `RewriteRule.commute()` (used by `RewriteRuleSet(commute=True)`, e.g. `fuse_hardswish_rules`) creates
+  several `RewriteRule`s that share ONE `_condition_function`/`_replacement_pattern`, i.e. one class
+  instance and one stash. -/
+  owner : Nat → Nat := id
 
 def World.Ok {I O : Type} (w : World I O) : Prop :=
-  ∀ p, p ∈ w.rules → p.1.ok = true ∧ Respects p.1 p.2
+  (∀ p, p ∈ w.rules → p.1.ok = true ∧ Respects p.1 p.2) ∧
+  (∀ r r' p p', w.rules[r]? = some p → w.rules[r']? = some p' → w.owner r = w.owner r' →
+    p.1.consts = p'.1.consts)
 
-/-- one stash per rule index -/
+/-- one stash per rule object -/
 abbrev Stashes := Nat → Stash
 
 def Stashes.set (σ : Stashes) (r : Nat) (s : Stash) : Stashes := fun k => if k = r then s else σ k
@@ -130,8 +137,8 @@ def runRewrite {I O : Type} (w : World I O) (strat : List (Option O) → Next I)
     | .attempt r i =>
       match w.rules[r]? with
       | some p =>
-        let t := tryRewrite p.2 (σ r) i
-        runRewrite w strat n (t.2 :: acc) (σ.set r t.1)
+        let t := tryRewrite p.2 (σ (w.owner r)) i
+        runRewrite w strat n (t.2 :: acc) (σ.set (w.owner r) t.1)
       | none => (σ, ⟨acc, true⟩)
 
 /-! ## 2. Constant folding pass object -/
@@ -356,6 +363,53 @@ def iterProto : Nat → OnnxFn → List Proto × OnnxFn
   | 0, f => ([], f)
   | n + 1, f => let r := toProto f; let rs := iterProto n r.2; (r.1 :: rs.1, rs.2)
 
+/-! ## 6a. Globals that are mutable objects (numpy arrays, TensorProtos) -/
+
+/-- value of a module global: an immutable Python number, or a reference to a mutable object
+(`numpy.ndarray`, `onnx.TensorProto`) living in the heap of cells -/
+inductive GVal where
+  | imm (v : Val)
+  | ref (cell : Nat)
+  deriving DecidableEq, Repr
+
+abbrev RGlobals := List (String × GVal)
+abbrev Cells := Nat → Val
+
+/-- IR constants: a tensor owned by the IR, or an `ir.Tensor` wrapping the user's array object -/
+inductive RExp where
+  | x
+  | const (v : Val)
+  | alias (cell : Nat)
+  | unbound (name : String)
+  | add (a b : RExp)
+  | mul (a b : RExp)
+  deriving DecidableEq, Repr
+
+/-- `Converter._emit_const` / the TENSOR-attribute path: `ir.tensor(pyvalue)` wraps a numpy array (or a
+TensorProto) WITHOUT copying (`copy = false`, the code as it is); `copy = true` snapshots the payload when
+the constant is created (the proposed fix).  Lists and Python numbers are always converted (copied). -/
+def translateR (copy : Bool) (g : RGlobals) (cells : Cells) : SExp → RExp
+  | .x => .x
+  | .glob n => match g.lookup n with
+    | some (.imm v) => .const v
+    | some (.ref c) => if copy then .const (cells c) else .alias c
+    | none => .unbound n
+  | .add a b => .add (translateR copy g cells a) (translateR copy g cells b)
+  | .mul a b => .mul (translateR copy g cells a) (translateR copy g cells b)
+
+/-- serialising the IR reads aliased payloads as they are NOW -/
+def RExp.toProto (cellsNow : Cells) : RExp → GExp
+  | .x => .x
+  | .const v => .const v
+  | .alias c => .const (cellsNow c)
+  | .unbound n => .unbound n
+  | .add a b => .add (a.toProto cellsNow) (b.toProto cellsNow)
+  | .mul a b => .mul (a.toProto cellsNow) (b.toProto cellsNow)
+
+/-- no global the body mentions is a mutable object -/
+def NoSharedMutablePayload (g : RGlobals) (body : SExp) : Prop :=
+  ∀ n, n ∈ body.globalsOf → ∀ c, g.lookup n ≠ some (.ref c)
+
 /-! ## 6b. `to_model_proto(**overrides)` and the decorator's kwargs dict -/
 
 /-- keyword arguments; first occurrence of a key wins (`{**base, **over}` = `over ++ base`) -/
@@ -400,6 +454,8 @@ structure ConverterFacts where
   resetFields : List String
   /-- `script_check` constructs `converter.Converter(...)` in its body, once per decorated function -/
   freshPerScript : Bool
+  /-- methods of `Converter` that hand the user's object straight to `ir.tensor(...)` (no snapshot) -/
+  constByRefSites : List String := []
   deriving DecidableEq, Repr
 
 def ConverterFacts.leaks (c : ConverterFacts) : List String :=
